@@ -755,9 +755,9 @@ def bpThreadExit (t : Nat) : M Unit := do
     modify fun g => { g with registry := g.registry.filter (· != t), curSnap := g.curSnap.filter (· != t),
                              qs := g.qs.filter (· != t), rctr := upd g.rctr t 0 }
     P.expect "UNLOCK" ["registry_lock"]
-    P.expect "SIGMASK" ["restore"]
-    P.expect "LOCK" ["init_lock"]     -- urcu_bp_exit(): refcount
+    P.expect "LOCK" ["init_lock"]     -- urcu_bp_exit(): refcount; signals stay blocked (fix 760a93b)
     P.expect "UNLOCK" ["init_lock"]
+    P.expect "SIGMASK" ["restore"]
     cover "bp_exit_unregister"
 
 partial def bpWaitForReaders (pass1 : Bool) (waitLoops : Nat) : M Unit := do
